@@ -145,6 +145,10 @@ pub struct Lexer<'lexer> {
   type_name: bool,
   /// ???
   till_in: bool,
+  /// Nesting depth of brackets inside the list of formal parameters of the function
+  /// definition that is just being read, `None` outside such list.
+  /// A name of a formal parameter is a new name, it may begin with a name that is already bound.
+  formal_parameters: Option<i32>,
 }
 
 /// FEEL lexer implementation.
@@ -161,6 +165,7 @@ impl<'lexer> Lexer<'lexer> {
       bracket_depth: 0,
       type_name: false,
       till_in: false,
+      formal_parameters: None,
     }
   }
 
@@ -224,6 +229,10 @@ impl<'lexer> Lexer<'lexer> {
         Ok((TokenType::External, TokenValue::External))
       }
       ['f', 'u', 'n', 'c', 't', 'i', 'o', 'n', _, _, _, _] if self.is_function_separator(8) => {
+        if self.is_next_character(&['('], 8) {
+          // the list of formal parameters begins with the next parenthesis
+          self.formal_parameters = Some(self.bracket_depth + 1);
+        }
         self.position += 8;
         Ok((TokenType::Function, TokenValue::Function))
       }
@@ -389,6 +398,10 @@ impl<'lexer> Lexer<'lexer> {
       }
       [')', _, _, _, _, _, _, _, _, _, _, _] => {
         self.bracket_depth -= 1;
+        if matches!(self.formal_parameters, Some(depth) if self.bracket_depth < depth) {
+          // the list of formal parameters ends with this parenthesis
+          self.formal_parameters = None;
+        }
         self.position += 1;
         Ok((TokenType::RightParen, TokenValue::RightParen))
       }
@@ -573,6 +586,8 @@ impl<'lexer> Lexer<'lexer> {
     let mut current_part = "".to_string();
     // positions of consumed characters
     let mut consumed_positions = vec![];
+    // position of the first character of the name
+    let name_position = self.position;
     // the current character on input is already a name start character, so consume it
     let mut ch = self.peek_character()?;
     current_part.push(ch);
@@ -642,6 +657,17 @@ impl<'lexer> Lexer<'lexer> {
 
     // now the `parts` vector contains all parts of the longest possible name,
     // now must be decides what kind of name it is, by checking the parsing scope
+
+    // ------------------------------------------------------------------------
+    // a name followed by a colon is the key of a context entry or the name of
+    // a (named or typed) parameter, a name that follows a parenthesis or a comma
+    // in the list of formal parameters is the name of a parameter;
+    // these are new names: all collected parts belong to them,
+    // also when the leading parts are a name already bound in the scope
+    // ------------------------------------------------------------------------
+    if !self.till_in && (self.is_next_character(&[':'], 0) || self.is_formal_parameter_name(name_position)) {
+      return Ok((TokenType::Name, TokenValue::Name(parts.to_vec().into())));
+    }
 
     // ------------------------------------------------------------------------
     // tweak with name of the `item` in filter
@@ -948,6 +974,18 @@ impl<'lexer> Lexer<'lexer> {
     } else {
       false
     }
+  }
+
+  /// Returns `true` when the name that begins at the specified position is the name
+  /// of a formal parameter: inside the list of formal parameters, it directly follows
+  /// the opening parenthesis or a comma.
+  fn is_formal_parameter_name(&self, name_position: usize) -> bool {
+    if self.formal_parameters != Some(self.bracket_depth) || self.type_name {
+      // outside the list of formal parameters, or inside the type of a formal parameter
+      return false;
+    }
+    let preceding = self.input[..name_position].iter().rev().find(|ch| !is_whitespace(**ch));
+    matches!(preceding, Some('(') | Some(','))
   }
 
   /// Returns `true` when the specified character is a function keyword separator,
